@@ -112,6 +112,8 @@ func (e *env) load(prop, fen string) (b *board.Board, valid, epNormal bool) {
 // single-occupant patterns (every path square x every occupant kind, bare and with filler material),
 // from then on every sixth position is a random castling-path position.  The histogram counts the
 // positions per (right, occupancy pattern) and the attack-from-afar / side-to-move splits.
+var epTargetSweep = posgen.EPTargetSweep()
+
 func (e *env) next() (fen, src string) {
 	e.nx++
 	k := e.nx - len(e.s.Roots) - 1
@@ -124,6 +126,9 @@ func (e *env) next() (fen, src string) {
 		for try := 0; try < 20 && !ok; try++ {
 			cc, ok = posgen.CastlePathSweep(e.c.Rng, k/2, k%2 == 1)
 		}
+	case k < 2*posgen.CastleSweepSize+len(epTargetSweep):
+		e.r.Count("eptarget-sweep", 1)
+		return epTargetSweep[k-2*posgen.CastleSweepSize], "eptarget-sweep"
 	case e.c.Rng.IntN(6) == 0:
 		src = "castlepath"
 		for try := 0; try < 20 && !ok; try++ {
@@ -804,6 +809,8 @@ func (e *env) walks(prop string) {
 		e.transpositions()
 		// the hash invariants past a halfmove clock of 100 / 127 / the int8 wrap
 		e.clockWalks(prop, e.c.Pick(30, 900))
+		// … and with several boards alive at once (aliasing between boards)
+		e.aliasWalks(prop, e.c.Pick(30, 900))
 	}
 	if prop == "C03" {
 		e.deepWalks(prop, e.c.Pick(40, 1200))
